@@ -11,7 +11,9 @@ from .minieval import Evaluator, Unsupported, Raised, MODKEY
 
 
 import copy as _copy
+import functools as _ft
 import itertools as _it
+import operator as _op
 import re as _re
 
 # pure functions of the standard library that the interpreted code may call (by dotted name as written with `import m`)
@@ -22,9 +24,15 @@ STDLIB_CALLS = {
     "itertools.chain": lambda *its: list(_it.chain(*its)), "itertools.zip_longest": lambda *a, **k: list(_it.zip_longest(*a, **k)),
     "itertools.product": lambda *a, **k: list(_it.product(*a, **k)),
     "copy.deepcopy": _copy.deepcopy, "copy.copy": _copy.copy,
+    "functools.reduce": _ft.reduce,
+    **{f"operator.{n}": getattr(_op, n) for n in ("iconcat", "concat", "add", "iadd", "sub", "mul", "and_", "or_", "not_", "eq", "ne", "lt", "le", "gt", "ge",
+                                                   "contains", "getitem", "truth", "is_", "is_not", "neg")},
     "re.fullmatch": _re.fullmatch, "re.match": _re.match, "re.search": _re.search, "re.sub": _re.sub, "re.escape": _re.escape, "re.findall": _re.findall,
 }
-STDLIB_MODELS = {"itertools": {MODKEY: "itertools", "chain": {MODKEY: "itertools.chain"}}, "re": {MODKEY: "re"}, "copy": {MODKEY: "copy"}}
+STDLIB_MODELS = {"itertools": {MODKEY: "itertools", "chain": {MODKEY: "itertools.chain"}}, "re": {MODKEY: "re"}, "copy": {MODKEY: "copy"},
+                 "functools": {MODKEY: "functools"},
+                 # operator's functions are also passed as values (functools.reduce(operator.iconcat, ...)): the real, pure builtins
+                 "operator": {MODKEY: "operator", **{n[len("operator."):]: f for n, f in STDLIB_CALLS.items() if n.startswith("operator.")}}}
 
 
 class ModuleInterp:
